@@ -108,4 +108,53 @@ theorem trailers_stagedLists (hs ts : List Tok) :
     | cons t r ih => simpa [trailers] using ih
   | cons h r ih => simpa [trailers] using ih
 
+/-! ### the calls so far against the whole run -/
+
+/-- The content of the handler's message after the calls `ops`. -/
+def bufAfter (buf : Tok) : List HOp → Tok
+  | [] => buf
+  | .write v :: r => bufAfter v r
+  | _ :: r => bufAfter buf r
+
+theorem sentVals_append (buf : Tok) (a b : List HOp) :
+    sentVals buf (a ++ b) = sentVals buf a ++ sentVals (bufAfter buf a) b := by
+  induction a generalizing buf with
+  | nil => simp [sentVals, bufAfter]
+  | cons op r ih => cases op <;> simp [sentVals, bufAfter, ih]
+
+theorem attached_append_gone (a b : List HOp) (h : headerGone a = true) :
+    attached (a ++ b) = attached a := by
+  induction a with
+  | nil => simp [headerGone] at h
+  | cons op r ih =>
+    cases op with
+    | setHeader x => simp only [headerGone] at h; simp [attached, ih h]
+    | sendHeader x => simp [attached]
+    | write v => simp only [headerGone] at h; simp [attached, ih h]
+    | send => simp [attached]
+    | setTrailer t => simp only [headerGone] at h; simp [attached, ih h]
+
+theorem pumpLoop_append_prefix (f : Option Nat) (a b : List Tok) (i : Nat) :
+    ∃ rest, (pumpLoop f (a ++ b) i).1 = (pumpLoop f a i).1 ++ rest := by
+  induction a generalizing i with
+  | nil => exact ⟨(pumpLoop f b i).1, by simp [pumpLoop]⟩
+  | cons m r ih =>
+    by_cases h : f = some i
+    · exact ⟨[], by simp [pumpLoop, h]⟩
+    · obtain ⟨rest, hr⟩ := ih (i + 1)
+      exact ⟨rest, by simp [pumpLoop, h, hr]⟩
+
+/-- The parts of the pump's observation that do not depend on how the loop ended. -/
+theorem forwardStream_open_parts (c : Client) (src : Src) (method req : Tok) (cs : ChildScript) (k : CallerScript)
+    (ho : cs.openErr = none) (hh : cs.headerErr = none) :
+    let o := forwardStream (.got c src) method req cs k
+    o.calls = [⟨c, method, req⟩] ∧ o.header = some cs.header ∧
+    o.sent = (match k.sendHeaderErr with | some _ => [] | none => (pumpLoop k.failAt cs.msgs 0).1) := by
+  simp only [forwardStream, ho, hh]
+  cases k.sendHeaderErr with
+  | some e => simp
+  | none =>
+    simp only
+    split <;> simp
+
 end ScVerif.C12
